@@ -65,6 +65,10 @@ CHECKS = {
             '(websocket handshake rejected) with no event, no session and an untouched queue; allowed or absent origins are not refused; '
             'Access-Control-Allow-Origin only echoes an allowed request origin; Allow-Credentials only when enabled; nothing with an empty allow-list.',
             'Trusted: CrossHair string models, z3, the simulated environment, the json.dumps seam on the asyncio refusal message.', '§3 C13'),
+    'C20': (XH + '; symbolic request path ("/" + Unicode tail) through get_static_file, WSGIApp and ASGIApp with file-system stubs (symbolic exists()), segment tables for deep / dot-dot / empty-segment paths, lifespan event x callback tables',
+            'For every path inside the bounds and every mapping / endpoint / wrapped-app / exists combination in the tables: the request is routed to the engine exactly when the path is under the endpoint, '
+            'to a static file exactly when a mapping matches and the file exists, else to the wrapped app or 404; the path handed to open() is the mapped file or lies (after lexical normalisation) beneath the mapped directory; lifespan events are answered per protocol.',
+            'Trusted: CrossHair string models, z3, the file-system stubs. Fully symbolic tails are exhausted only for mappings without a \'\' or \'/\' key (CrossHair realises characters in str.rsplit); the others are covered by the segment tables.', '§3 C20'),
 }
 
 NOT_BUILT = 'check not built yet in this round (see DESIGN.md §8 build order); not claimed until it runs'
